@@ -1,90 +1,61 @@
 (** C18 -- history stores every submitted line verbatim, durably, injection-free.
     Statements only; proofs are in Proofs/HistoryProofs.v.  The model
-    (Model/History.v) is the text of the statements cicada assembles with format!,
-    sqlite's string-literal lexing, a recogniser of the INSERT shape, and the
-    table as a row list. *)
+    (Model/History.v) follows the code as repaired by b952f8c: every statement is a
+    template plus bound parameters.  Meaning of binding (trusted, compared with
+    sqlite on every case): a bound value is stored / compared verbatim and is
+    never read as SQL.  The only text still pasted into a statement is the table
+    name from HISTORY_TABLE (configuration, not command text, search pattern or
+    directory name) and numbers (rowid, limit). *)
 From Coq Require Import ZArith.
 From Cicada Require Import Base.Chars Model.History Proofs.HistoryProofs.
 Local Open Scope N_scope.
 
-(** The quote-doubled line text is read back by sqlite's literal lexer as exactly
-    the text, and the literal ends exactly at its closing quote -- for EVERY text
-    (the code applies trim() first; code point 0 cannot be delivered). Hence no
-    line text can end its literal early. *)
-Theorem C18_line : forall line rest,
-  has_nul line = false -> no_sq_head rest ->
-  lex_literal (c_sq :: quote_body line ++ c_sq :: rest) = Some (line, rest).
-Proof. exact lex_literal_quote. Qed.
+(** Injection-freedom of recording, for ALL inputs: the INSERT text is the same
+    whatever the line, the status, the times, the session id and the directory. *)
+Theorem C18_insert_text : forall table l1 st1 b1 e1 s1 d1 l2 st2 b2 e2 s2 d2,
+  fst (insert_stmt table l1 st1 b1 e1 s1 d1) = fst (insert_stmt table l2 st2 b2 e2 s2 d2).
+Proof. reflexivity. Qed.
 
-(** A text pasted between quotes WITHOUT doubling (what the code does with the
-    directory name, the session id and the search pattern) is read back as
-    itself exactly when it holds no quote. *)
-Theorem C18_literal_iff : forall x rest,
-  has_nul x = false -> no_sq_head rest ->
-  (lex_literal (c_sq :: x ++ c_sq :: rest) = Some (x, rest) <-> has_sq x = false).
-Proof. exact literal_raw_iff. Qed.
-
-(** The whole INSERT text of add_raw is a well-formed one-row INSERT whose inp
-    value is exactly trim(line) -- whatever the line holds -- provided session id
-    and directory hold no quote. *)
-Theorem C18_insert_ok : forall table line status tsb tse session dir,
-  wf_args line status tsb tse session dir ->
-  has_sq session = false -> has_sq dir = false ->
-  parse_insert table (insert_sql table line status tsb tse session dir) =
-  Some [intended_row line status tsb tse session dir].
-Proof. exact insert_ok. Qed.
-
-(** Full statement (no text of any kind can disturb recording): false. *)
-Definition C18_full : Prop := forall table line status tsb tse session dir,
-  wf_args line status tsb tse session dir -> insert_exact table line status tsb tse session dir.
-
-(** Refuted by the directory /tmp/it's : the statement is not an INSERT at all
-    (observed on the binary: save error, the line is not recorded). *)
-Theorem C18_dir_refuted : ~ C18_full.
-Proof. exact not_full. Qed.
-
-(** ... and by a crafted directory name the statement is a well-formed INSERT of
-    two rows, one of them never submitted (observed on the binary: row pwn). *)
-Theorem C18_dir_injection :
-  wf_args w_line w_num0 w_num0 w_num1 w_sess w_dir_inject /\
-  exists r1 r2, parse_insert w_table (insert_sql w_table w_line w_num0 w_num0 w_num1 w_sess w_dir_inject) = Some [r1; r2].
-Proof. split; [exact w_wf_inject|]. eexists; eexists; exact dir_injection. Qed.
-
-(** The search pattern (and, for -p, the directory) inside the LIKE literal:
-    read back as the intended pattern exactly when it holds no quote. *)
-Theorem C18_pattern_iff : forall p rest, has_nul p = false -> no_sq_head rest ->
-  (lex_literal (like_lit p ++ rest) = Some (wrap_pct p, rest) <-> has_sq p = false).
-Proof. exact like_lit_iff. Qed.
-
-Theorem C18_pattern_refuted : exists p, has_nul p = false /\
-  forall rest, no_sq_head rest -> lex_literal (like_lit p ++ rest) <> Some (wrap_pct p, rest).
-Proof.
-  exists w_pat_quote. split; [reflexivity|]. intros rest Hr H.
-  apply (proj1 (like_lit_iff w_pat_quote rest eq_refl Hr)) in H. discriminate H.
-Qed.
-
-(** Partial statement: outside the known class (a quote in the directory name or
-    in the session id) every line is recorded exactly. *)
-Definition Known_C18 (session dir : str) : bool := has_sq session || has_sq dir.
-Theorem C18_partial : forall table line status tsb tse session dir,
-  wf_args line status tsb tse session dir -> Known_C18 session dir = false ->
-  insert_exact table line status tsb tse session dir.
-Proof.
-  intros table line status tsb tse session dir W K. apply orb_false_iff in K as [K1 K2]. now apply insert_ok.
-Qed.
-
-(** history delete n: the statement holds no literal, and the table loses exactly row n. *)
-Theorem C18_delete_exact : forall rows n r, In r (db_delete rows n) <-> In r rows /\ r_id r <> n.
-Proof. exact db_delete_exact. Qed.
-Theorem C18_delete_text : forall table n, has_sq table = false -> forallb is_digit n = true ->
-  has_sq (delete_sql table n) = false.
-Proof. exact delete_sql_no_quote. Qed.
+(** Full statement (recording): for EVERY line, session id and directory name the
+    statement stores exactly one row, whose text is the line up to the trim()
+    the code applies, and whose directory record holds the name verbatim. *)
+Theorem C18_full : forall table line status tsb tse session dir,
+  insert_rows table (insert_stmt table line status tsb tse session dir) =
+  Some [[VStr (trim line); VNum status; VNum tsb; VNum tse; VStr session; VStr (s_dir ++ dir ++ s_bar)]].
+Proof. exact insert_exact. Qed.
 
 (** A new row gets a fresh rowid and is appended; no existing row changes. *)
 Theorem C18_insert_appends : forall rows inp tsb s i,
   db_insert rows inp tsb s i = rows ++ [mkrow (next_id rows) inp tsb s i] /\
   (forall r, In r rows -> r_id r <> next_id rows).
 Proof. exact db_insert_spec. Qed.
+
+(** Injection-freedom of listing, for ALL inputs: the SELECT text depends on the
+    pattern only through its emptiness, and not at all on session id or directory. *)
+Theorem C18_select_text : forall table p1 s1 d1 p2 s2 d2 o lim,
+  is_empty p1 = is_empty p2 ->
+  fst (select_stmt table p1 s1 d1 o lim) = fst (select_stmt table p2 s2 d2 o lim).
+Proof. exact select_text_indep. Qed.
+
+(** The bound values are the pattern and the directory record wrapped in percent
+    signs and the session id, in clause order; as many as there are placeholders. *)
+Theorem C18_select_params : forall table p s d o lim,
+  snd (select_stmt table p s d o lim) =
+  (if is_empty p then [] else [wrap_pct p]) ++ (if o_session o then [s] else []) ++
+  (if o_pwd o then [wrap_pct (pwd_inner d)] else []).
+Proof. exact select_params_spec. Qed.
+Theorem C18_select_arity : forall table p s d o lim,
+  count_char c_qm table = O -> count_char c_qm lim = O ->
+  count_char c_qm (fst (select_stmt table p s d o lim)) = length (snd (select_stmt table p s d o lim)).
+Proof. exact select_arity. Qed.
+
+(** What the clauses mean for a row (bound values compared verbatim). *)
+Theorem C18_row_matches : forall p s d o r,
+  row_matches p s d o r =
+  (is_empty p || like (wrap_pct p) (r_inp r)) &&
+  (negb (o_session o) || str_eqb (r_session r) s) &&
+  (negb (o_pwd o) || like (wrap_pct (pwd_inner d)) (r_info r)).
+Proof. exact row_matches_spec. Qed.
 
 (** Listing shows only stored rows that satisfy the filters; all of them when no limit applies. *)
 Theorem C18_list_sound : forall rows p s d o r,
@@ -99,6 +70,15 @@ Proof. exact db_list_complete. Qed.
 Theorem C18_search_complete : forall p a b, like (wrap_pct p) (a ++ p ++ b) = true.
 Proof. exact search_complete. Qed.
 
+(** history delete n: the table loses exactly row n; the only pasted value is a
+    number, so the text holds no character a number cannot hold (quote, placeholder...). *)
+Theorem C18_delete_exact : forall rows n r, In r (db_delete rows n) <-> In r rows /\ r_id r <> n.
+Proof. exact db_delete_exact. Qed.
+Theorem C18_delete_text : forall table n k, is_digit k = false -> has_char k table = false ->
+  has_char k (s_delete ++ s_where_rowid) = false -> forallb is_digit n = true ->
+  has_char k (delete_sql table n) = false.
+Proof. exact delete_sql_plain. Qed.
+
 (** Recording rule of the read loop: never two equal lines in a row; (without
     bang-bang expansion) exactly the typed non-blank lines without leading space
     are candidates, and each of them is recorded at least once. *)
@@ -111,49 +91,50 @@ Theorem C18_record_complete : forall typed t, In t typed -> starts_with_space t 
   In t (session_run idbang [] typed).
 Proof. exact session_complete. Qed.
 
-Check C18_line : forall line rest, has_nul line = false -> no_sq_head rest ->
-  lex_literal (c_sq :: quote_body line ++ c_sq :: rest) = Some (line, rest).
-Check C18_insert_ok : forall table line status tsb tse session dir,
-  wf_args line status tsb tse session dir -> has_sq session = false -> has_sq dir = false ->
-  parse_insert table (insert_sql table line status tsb tse session dir) =
-  Some [intended_row line status tsb tse session dir].
-Check C18_dir_refuted : ~ C18_full.
-Check C18_partial : forall table line status tsb tse session dir,
-  wf_args line status tsb tse session dir -> Known_C18 session dir = false ->
-  insert_exact table line status tsb tse session dir.
+Check C18_full : forall table line status tsb tse session dir,
+  insert_rows table (insert_stmt table line status tsb tse session dir) =
+  Some [[VStr (trim line); VNum status; VNum tsb; VNum tse; VStr session; VStr (s_dir ++ dir ++ s_bar)]].
+Check C18_insert_text : forall table l1 st1 b1 e1 s1 d1 l2 st2 b2 e2 s2 d2,
+  fst (insert_stmt table l1 st1 b1 e1 s1 d1) = fst (insert_stmt table l2 st2 b2 e2 s2 d2).
+Check C18_select_text : forall table p1 s1 d1 p2 s2 d2 o lim,
+  is_empty p1 = is_empty p2 ->
+  fst (select_stmt table p1 s1 d1 o lim) = fst (select_stmt table p2 s2 d2 o lim).
 
-(** Non-vacuity: a line holding a single quote, double quotes, percent, underscore,
-    backslash, semicolon, two dashes, a closing parenthesis and a non-ASCII letter,
-    with blanks at both ends, in a directory whose name holds a percent sign and a
-    double quote, with session s1 meets the hypotheses of C18_insert_ok,
-    and the recogniser yields the trimmed line. *)
+(** Non-vacuity / regression witnesses: the two directory names that broke the
+    unrepaired code (a quote; the crafted second-row name) and a line holding both
+    quote kinds, percent, underscore, backslash, semicolon, two dashes, a closing
+    parenthesis and a non-ASCII letter with blanks at both ends now store exactly
+    the one intended row; the row-level recogniser is not trivially Some (a
+    template with a placeholder that has no value is rejected). *)
+Definition w_table : str := [99;105;99;97;100;97;95;104;105;115;116;111;114;121].
+Definition w_num0 : str := [48].
+Definition w_sess : str := [115;49].
+Definition w_dir_quote : str := [47;116;109;112;47;105;116;39;115].
+Definition w_dir_inject : str :=
+  [47;119;47;120;124;39;41;44;32;40;39;112;119;110;39;44;32;48;44;32;48;44;32;48;44;32;39;115;39;44;32;39;100;105;114;58;121].
 Definition ex_line : str := [32;105;116;39;115;32;34;120;34;32;37;95;92;59;45;45;41;32;233;32].
-Definition ex_dir : str := [47;119;47;112;37;113;34;114].
 Example C18_nonvacuous :
-  wf_args ex_line w_num0 w_num0 w_num1 w_sess ex_dir /\ has_sq w_sess = false /\ has_sq ex_dir = false /\
-  has_sq ex_line = true /\
-  parse_insert w_table (insert_sql w_table ex_line w_num0 w_num0 w_num1 w_sess ex_dir) =
-  Some [[VStr [105;116;39;115;32;34;120;34;32;37;95;92;59;45;45;41;32;233]; VNum w_num0; VNum w_num0; VNum w_num1;
-         VStr w_sess; VStr [100;105;114;58;47;119;47;112;37;113;34;114;124]]].
-Proof.
-  split; [|vm_compute; repeat split].
-  split; try reflexivity; (split; [discriminate|reflexivity]).
-Qed.
+  insert_rows w_table (insert_stmt w_table ex_line w_num0 w_num0 w_num0 w_sess w_dir_inject) =
+    Some [[VStr [105;116;39;115;32;34;120;34;32;37;95;92;59;45;45;41;32;233]; VNum w_num0; VNum w_num0; VNum w_num0;
+           VStr w_sess; VStr (s_dir ++ w_dir_inject ++ s_bar)]] /\
+  insert_rows w_table (insert_stmt w_table ex_line w_num0 w_num0 w_num0 w_sess w_dir_quote) <> None /\
+  insert_rows w_table (insert_template w_table, [VStr ex_line]) = None /\
+  row_matches [105;116;39] w_sess w_dir_quote (mko false true true 20%Z)
+    (mkrow 1 [105;116;39;115] 0%Z w_sess (s_dir ++ w_dir_quote ++ s_bar)) = true.
+Proof. vm_compute. repeat split. discriminate. Qed.
 
-Print Assumptions C18_line.
-Print Assumptions C18_literal_iff.
-Print Assumptions C18_insert_ok.
-Print Assumptions C18_dir_refuted.
-Print Assumptions C18_dir_injection.
-Print Assumptions C18_pattern_iff.
-Print Assumptions C18_pattern_refuted.
-Print Assumptions C18_partial.
-Print Assumptions C18_delete_exact.
-Print Assumptions C18_delete_text.
+Print Assumptions C18_insert_text.
+Print Assumptions C18_full.
 Print Assumptions C18_insert_appends.
+Print Assumptions C18_select_text.
+Print Assumptions C18_select_params.
+Print Assumptions C18_select_arity.
+Print Assumptions C18_row_matches.
 Print Assumptions C18_list_sound.
 Print Assumptions C18_list_complete.
 Print Assumptions C18_search_complete.
+Print Assumptions C18_delete_exact.
+Print Assumptions C18_delete_text.
 Print Assumptions C18_record_rule.
 Print Assumptions C18_record_sound.
 Print Assumptions C18_record_complete.
